@@ -352,8 +352,10 @@ def main():
         'wall_s': round(wall, 2),
         'violations': 1 if violation else 0,
     }
-    os.makedirs(os.path.join(core.VERIF, 'evidence'), exist_ok=True)
-    json.dump(ev, open(os.path.join(core.VERIF, 'evidence', pid + '.json'), 'w'), indent=1)
+    # evidence/ only ever describes runs against /repo itself; runs against a scratch checkout (VERIF_REPO) go elsewhere
+    evdir = os.path.join(core.VERIF, 'evidence') if os.path.abspath(core.REPO) == '/repo' else '/tmp/verif-scratch-evidence'
+    os.makedirs(evdir, exist_ok=True)
+    json.dump(ev, open(os.path.join(evdir, pid + '.json'), 'w'), indent=1)
     print('%s tier=%s seed=%d: %d/%d obligations discharged; %d cases (%d distinct non-trivial), %d disagreements, %d spec failures on the implementation; %.1fs'
           % (pid, tier, seed, discharged, obligations, run.evaluations, len(run.nontrivial), len(run.disagreements), len(run.spec_failures), wall))
     if violation:
